@@ -32,10 +32,11 @@ const (
 	opWgAdd
 	opYield // explicit scheduling point without object
 	opQuiesce // enabled only when nothing else is
+	opCtxCancel
 )
 
 func (k opKind) String() string {
-	return [...]string{"start", "send", "recv", "close", "select", "aload", "astore", "lock", "unlock", "event", "wgwait", "wgadd", "yield", "quiesce"}[k]
+	return [...]string{"start", "send", "recv", "close", "select", "aload", "astore", "lock", "unlock", "event", "wgwait", "wgadd", "yield", "quiesce", "cancel"}[k]
 }
 
 // mchan is a modelled channel.
@@ -73,6 +74,7 @@ type pendingOp struct {
 	site     string
 	delta    int64
 	eventTag string
+	ctx      *ctxObj
 }
 
 type resumeMsg struct {
@@ -357,6 +359,8 @@ func (s *scheduler) enabled() []transition {
 					ts = append(ts, transition{g: g, caseIdx: -1, objs: objs})
 				}
 			}
+		case opCtxCancel:
+			ts = append(ts, transition{g: g, objs: p.ctx.allDoneIDs()})
 		case opAtomicLoad:
 			ts = append(ts, transition{g: g, objs: []int{p.obj.id}, readOnly: true})
 		case opAtomicStore, opEvent, opUnlock, opWgAdd:
@@ -548,6 +552,9 @@ func (s *scheduler) fire(t *transition) {
 				s.resume(g, resumeMsg{chosen: t.caseIdx, val: zero(c.elem), ok: false})
 			}
 		}
+	case opCtxCancel:
+		p.ctx.cancelTree(ctxCanceled())
+		s.resume(g, resumeMsg{})
 	case opAtomicLoad:
 		s.resume(g, resumeMsg{val: p.obj.val})
 	case opAtomicStore:
